@@ -25,6 +25,9 @@ def DATE_MAX : Int := maxDay
 /-- `crate::opening_hours::DATE_END.date()` (the constant itself is tied by `tables2lean.py`) -/
 def DATE_END : Int := dateEnd
 
+/-- `crate::opening_hours::DATE_START.date()` (tied by `tables2lean.py` as well) -/
+def DATE_START : Int := dateStart
+
 /-- `NaiveDate::from_ymd_opt(year: i32, month: u32, day: u32)` -/
 def from_ymd_opt (y m d : Int) : Option Int := ofYmd? y m.toNat d.toNat
 
